@@ -53,7 +53,7 @@ CopyLibOK(ev, deep) ==
           /\ ev.copy.cells[i].id = (IF deep THEN "new" ELSE c)
 
 Mark(okk, why) == IF okk \/ bad THEN bad' = bad
-                  ELSE /\ PrintT(<<"REJECT", l, why, Failing(Ev)>>) /\ bad' = TRUE
+                  ELSE /\ PrintT("REJECT " \o ToString(l) \o " " \o ToString(<<why, Failing(Ev)>>)) /\ bad' = TRUE
 
 TInit == Init /\ l = 1 /\ bad = FALSE
 TReset == /\ Ev.e = "Reset"
@@ -77,7 +77,7 @@ TCopyCell == /\ Ev.e = "copycell" /\ CopyCell(Ev.a, Ev.b = "deep")
                                               IF Ev.b = "deep" THEN "cp" ELSE name[Ev.a]),
                      "copycell")
 Known == {"Reset", "init", "rename", "replace", "remap", "add", "remove", "copylib", "copycell"}
-TOther == /\ Ev.e \notin Known /\ PrintT(<<"REJECT", l, Ev.e>>) /\ bad' = TRUE /\ UNCHANGED vars
+TOther == /\ Ev.e \notin Known /\ PrintT("REJECT " \o ToString(l) \o " " \o ToString(Ev.e)) /\ bad' = TRUE /\ UNCHANGED vars
 
 TNext == /\ l <= Len(Log) /\ l' = l + 1
          /\ (TReset \/ TInitEv \/ TRename \/ TReplace \/ TRemap \/ TAdd \/ TRemove
